@@ -94,7 +94,14 @@ Definition handshake (skip : bool) (k : kx) (f : server_facts) (mode : N) (c : c
          key, DHE signature altered in flight under InsecureSkipVerify): its checks of the
          client's certificate come first *)
       match server_judges mode k c with
-      | Done => Abort a false cd
+      | Done =>
+          (* DHE signature altered in flight: the transcripts differ, so a CertificateVerify of the
+             client (signed over its transcript) fails at the server before the Finished does *)
+          match k with
+          | KxDHE => if requests_client_cert mode && c_presents c
+                     then Abort AlertDecryptError false cd else Abort a false cd
+          | _ => Abort a false cd
+          end
       | Abort a2 b2 cd2 =>
           (* RSA key transport without the key: the server may already fail on the
              ClientKeyExchange (ciphertext not below its modulus), i.e. before it looks at the
